@@ -311,7 +311,9 @@ class SMCSampler(MCMCSampler):
         run_smc_loop = True
         if resumed:
             last_beta = self.history.beta[-1] if self.history.beta else beta
-            if last_beta >= 1.0:
+            if last_beta >= 1.0 or (
+                max_n_steps is not None and iterations >= max_n_steps
+            ):
                 run_smc_loop = False
 
         def maybe_checkpoint(force: bool = False):
